@@ -420,6 +420,11 @@ public:
           }
         });
         genericChildren = false;
+      } else if (auto *DA = dyn_cast<CXXDefaultArgExpr>(S)) {
+        if (const Expr *DE = DA->getExpr()) {
+          J.attributeArray("c", [&] { emitStmt(DE); });
+        }
+        genericChildren = false;
       } else if (isa<CXXThisExpr>(S)) {
       } else if (auto *IL2 = dyn_cast<InitListExpr>(S)) {
         (void)IL2;
